@@ -181,6 +181,8 @@ class C16(Prop):
         e = rng.random() < 0.5
         lines.append(f"exec {show_bool(e)}")
         lines.append(f"exec {show_bool(not e)}")
+        if rng.random() < 0.15:
+            lines.append("exec d")                            # enforce_static_checks left at its default
         lines.append("caps")
         if rng.random() < 0.2:
             lines.append(f"flow {rng.randrange(nD)} {rng.randrange(nI)} {rng.randrange(nD)} {rng.randrange(nI)}")
@@ -225,7 +227,7 @@ class C16(Prop):
                     ent = "0:raw:3" if h is None else f"0:typed:{h[0]}:{h[1]}:3"
                     for via in ("wire", "rawwire"):
                         cases.append({"lines": [f"mod 0 I O 0:{s[0]}:{s[1]} C 0", f"mod 1 I 0:{t[0]}:{t[1]} O C 1",
-                                                f"{via} 0 0 1 0", f"handler 0 ret {ent}", "exec 1", "exec 0",
+                                                f"{via} 0 0 1 0", f"handler 0 ret {ent}", "exec 1", "exec 0", "exec d",
                                                 "ext 1 0 raw 1", "exec 1"],
                                       "note": "two modules"})
         spaces.append({"name": "two modules, one (raw)wire, all label pairs over two data types, all handler labellings, "
@@ -391,8 +393,11 @@ class C16(Prop):
                 elif op == "exec":
                     del calls[:]
                     enforce = t[1] == "1"
-                    kind, val = self._bounded(lambda: ex.execute({k: dict(v) for k, v in ext.items()} or None,
-                                                                 enforce_static_checks=enforce))
+                    extarg = {k: dict(v) for k, v in ext.items()} or None
+                    if t[1] == "d":
+                        kind, val = self._bounded(lambda: ex.execute(extarg))
+                    else:
+                        kind, val = self._bounded(lambda: ex.execute(extarg, enforce_static_checks=enforce))
                     cs = list(calls)
                     x = {"calls": cs, "enforce": enforce}
                     cstr = "[" + ";".join(f"{n}({self._show_tvs(s)})" for n, s in cs) + "]"
@@ -516,7 +521,8 @@ class C16(Prop):
                 if o != want:
                     V("label_guard_" + op, want, o, idx)
             elif op == "exec":
-                self._oracle_exec(V, idx, extra[idx], t[1] == "1", mods, wires, handlers, ext)
+                # "d" = default argument: the text promises nothing about wires that bypassed connect then
+                self._oracle_exec(V, idx, extra[idx], None if t[1] == "d" else t[1] == "1", mods, wires, handlers, ext)
         return out
 
     def _oracle_exec(self, V, idx, x, enforce, mods, wires, handlers, ext):
@@ -557,7 +563,7 @@ class C16(Prop):
                                                         or w[3] not in mods[w[2]][0])]
         unvetted_bad = [w for w in wires if not w[4] and w not in dangling and not (
             mods[w[0]][1][w[1]][0] == mods[w[2]][0][w[3]][0] and mods[w[0]][1][w[1]][1] >= mods[w[2]][0][w[3]][1])]
-        accepted_diagram = not dangling and (enforce or not unvetted_bad)
+        accepted_diagram = not dangling and (enforce is True or not unvetted_bad)
 
         def typed_ok(m, snap, clause):
             spec = mods.get(m)
@@ -633,7 +639,7 @@ class C16(Prop):
                      for m, h in handlers.items() if m in mods)
         ext_ok = all(k in nsrc and (lab is None or (lab[0] == mods[k[0]][0][k[1]][0] and lab[1] >= mods[k[0]][0][k[1]][1]))
                      for k, lab in ext.items())
-        if not unsched and honest and ext_ok and not dangling and not (enforce and unvetted_bad):
+        if not unsched and honest and ext_ok and not dangling and not (enforce is not False and unvetted_bad):
             V("schedulable_diagram_runs", "a report", st, idx)
 
     def nontrivial(self, case, obs):
